@@ -518,15 +518,17 @@ def setupsave_item(item):
     H.install_fake_mpi()
     st = H.load_copy('pygyro.utilities.savingTools', 'pygyro_utilities_savingTools__stub')
 
+    made = set()       # one file system shared by all ranks: a folder exists once some rank has created it
+
     class FakeOS:
         class path:
             @staticmethod
             def isdir(p):
-                return False
+                return p in made
 
         @staticmethod
         def mkdir(p):
-            pass
+            made.add(p)
     st.os = FakeOS
     st.open = lambda *a, **k: open(os.devnull, 'w')
     world = simmpi.World(nranks)
